@@ -5,17 +5,18 @@ from .. import portsim
 from ..common import chunks, exc_name, generic_replay, pool_map
 
 RULE = ('histories (<= 14 ops) of send / receive / poll / for-loop / iter_pending / close / with-exit on a scripted device double '
-        '(autoreset on/off), EchoPort and MultiPort over such ports, with ports.sleep replaced by a counter that reports a hang; '
+        '(autoreset on/off; optionally a device that stops accepting sends after k messages), EchoPort and MultiPort over such ports, with ports.sleep replaced by a counter that reports a hang; '
         'exhaustively every position of the device closing itself relative to 0..3 arrivals and 0..3 queued messages; outcome of every '
         'op and the final device log compared with the model. Distinct by (port setup, op list); non-trivial = at least one op '
         'after a close or an environment step that closes')
 
 
 def spec_str(spec):
-    return 'kind=%s autoreset=%d closed=0 queue=%s script=%s' % (
+    return 'kind=%s autoreset=%d closed=0 queue=%s script=%s budget=%s' % (
         spec['kind'], 1 if spec['autoreset'] else 0,
         ','.join(map(str, spec['queue'])) or '-',
-        ';'.join('%s:%d' % (','.join(map(str, a)), 1 if c else 0) for a, c in spec['script']) or '-')
+        ';'.join('%s:%d' % (','.join(map(str, a)), 1 if c else 0) for a, c in spec['script']) or '-',
+        '-' if spec.get('budget') is None else spec['budget'])
 
 
 def build_port(spec, Dev):
@@ -28,7 +29,7 @@ def build_port(spec, Dev):
         p = LoggedEcho()
         p.log = []
     else:
-        p = Dev('d', autoreset=spec['autoreset'], script=spec['script'])
+        p = Dev('d', autoreset=spec['autoreset'], script=spec['script'], budget=spec.get('budget'))
     p._messages.extend(portsim.msg_of(k) for k in spec['queue'])
     return p
 
@@ -74,6 +75,7 @@ def run_history(case):
     with portsim.patched_sleep() as sl:
         p = build_port(spec, Dev)
         closed_seen = False
+        sent_ok = 0
         handed_in = list(spec['queue'])
         handed_out = []
         for op in ops:
@@ -83,6 +85,7 @@ def run_history(case):
                 try:
                     p.send(portsim.msg_of(op[1]))
                     lines.append('ok')
+                    sent_ok += 1
                     if spec['kind'] == 'echo':
                         handed_in.append(op[1])
                     if closed_seen and fail is None:
@@ -93,13 +96,17 @@ def run_history(case):
                         fail = 'send raised ValueError on an open port'
                 except Exception as e:
                     lines.append('err ' + exc_name(e))
-                    fail = fail or f'send raised {type(e).__name__}'
+                    gone = spec.get('budget') is not None and sent_ok >= spec['budget'] and isinstance(e, OSError)
+                    if not gone:
+                        fail = fail or f'send raised {type(e).__name__}'
             elif k in ('receive', 'poll'):
                 before = sl.n
                 o = out_of(p.receive if k == 'receive' else p.poll)
                 lines.append(o)
                 if o.startswith('msg'):
                     handed_out.append(int(o[4:]))
+                if o.startswith('err') and len(p._messages) and fail is None:
+                    fail = f'{k}() gave {o} although {len(p._messages)} message(s) the port had taken in were deliverable'
                 if k == 'poll' and sl.n != before and fail is None:
                     fail = 'poll() waited (called ports.sleep)'
                 if k == 'poll' and o.startswith('err') and fail is None:
@@ -112,6 +119,8 @@ def run_history(case):
                 handed_out += [int(x) for x in o.split(' ')[1].split(',') if x]
                 if o.endswith('hang') is False and not o.endswith('normal') and fail is None:
                     fail = f'iteration over the port ended with an exception: {o}'
+                if o.endswith('normal') and spec['kind'] == 'dev' and len(p._messages) and fail is None:
+                    fail = f'iteration stopped with {len(p._messages)} message(s) the port had taken in not handed out'
             elif k == 'iterpending':
                 o = iterate(p.iter_pending())
                 lines.append(o)
@@ -135,6 +144,9 @@ def run_history(case):
             resets = [x for x in p.log if x.startswith('s1') and len(x) == 5]
             if spec['kind'] == 'dev' and p.closed:
                 want = ['s%d' % (1000 + i) for i in range(32)] if spec['autoreset'] else []
+                if spec.get('budget') is not None:
+                    # a device that stops accepting messages: the resets it still took, then the release
+                    want = want[:max(0, spec['budget'] - sent_ok)]
                 tail = p.log[-(len(want) + 1):]
                 if tail != want + ['C']:
                     fail = f'reset messages / release out of order at close: log tail {tail}'
@@ -224,6 +236,12 @@ def gen(ck):
                                 script.append(([], False))
                             script.append((arr, i == closepos))
                         spec = {'kind': 'dev', 'autoreset': autoreset, 'queue': q, 'script': script}
+                        if autoreset and empties == 0:
+                            # the device stops accepting messages before / inside / after the reset loop of close()
+                            for budget in (0, 1, 31, 32):
+                                fs = dict(spec, budget=budget)
+                                for tail in (['close', 'close', 'send'], ['iter', 'close', 'exit'], ['send', 'send', 'exit', 'close', 'poll']):
+                                    cases.append((fs, [(t,) if t != 'send' else ('send', next(n)) for t in tail]))
                         for tail in (['iter'], ['receive', 'iter'], ['poll', 'poll', 'iter', 'poll'], ['iterpending', 'iter', 'receive'],
                                      ['close', 'iter', 'send'], ['iter', 'close', 'close', 'exit', 'send', 'poll']):
                             cases.append((spec, [(t,) if t != 'send' else ('send', next(n)) for t in tail]))
@@ -237,6 +255,8 @@ def gen(ck):
             for i in range(rng.randint(0, 6)):
                 script.append(([next(n) % 100000 for _ in range(rng.choice([0, 0, 1, 2]))], i == closes_at))
         spec = {'kind': kind, 'autoreset': rng.random() < 0.3 and kind == 'dev', 'queue': q, 'script': script}
+        if kind == 'dev' and rng.random() < 0.25:
+            spec['budget'] = rng.choice([0, 1, 2, 3, 31, 32, 33, 34, 40])
         ops = []
         for _ in range(rng.randint(1, 14)):
             t = rng.choice(['send', 'receive', 'poll', 'poll', 'iter', 'iterpending', 'close', 'exit'])
@@ -292,6 +312,8 @@ def run(ck):
         closes = any(c for _a, c in spec['script']) or any(o[0] in ('close', 'exit') for o in ops)
         ck.note_case(repr((spec, ops)), nontrivial=closes)
         ck.count('kind:' + spec['kind'])
+        if spec.get('budget') is not None:
+            ck.count('device_send_fault')
         for o in ops:
             ck.count('op:' + o[0])
         for l in lines[:-1]:
